@@ -78,11 +78,50 @@ ndet=$(jq -r 'select(.outcome|startswith("detected")) | .seed' "$results" | wc -
 nskip=$(jq -r 'select(.outcome=="skipped") | .seed' "$results" | wc -l)
 echo "  thorough: self-test on archived seeded changes: $ndet detected, $nskip skipped (patch no longer applies), $expected_miss recorded gaps${missed:+, MISSED: $missed}"
 
+# ---- 2b. silence on behaviour-preserving refactorings ------------------------
+bres="$S/benign.jsonl"; : > "$bres"
+run_benign() { # $1 = patch
+  local pt="$1" id t rc out why
+  id=$(echo "$pt" | sed "s#$V/benign/##; s#/#-#g; s#\.diff##")
+  t="$S/b-$id"
+  rsync -a --exclude .git "$REPO/" "$t/"
+  if ! ( cd "$t" && patch -p1 -s --dry-run --no-backup-if-mismatch < "$pt" >/dev/null 2>&1 ); then
+    jq -cn --arg id "$id" '{patch:$id, outcome:"skipped", why:"patch no longer applies to the current tree"}' >> "$bres"
+    rm -rf "$t"; return
+  fi
+  ( cd "$t" && patch -p1 -s --no-backup-if-mismatch < "$pt" >/dev/null 2>&1 )
+  mkdir -p "$S/vb-$id/evidence"; cp "$V/known_findings.json" "$S/vb-$id/"
+  out=$("$V/bin/imapcheck" -repo "$t" -verif "$S/vb-$id" -property "$prop" -tier quick 2>&1); rc=$?
+  why=$(echo "$out" | grep -E "^  [a-zA-Z_/.0-9]+\.go:[0-9]+: rule|UNDECIDED|UNRESOLVED|BELOW FLOOR" | head -1 | sed "s#$t/##g" | cut -c1-300)
+  jq -cn --arg id "$id" --argjson rc $rc --arg why "$why" '{patch:$id, outcome:(if $rc==0 then "silent" else "ALARM" end), rc:$rc, first_report:$why}' >> "$bres"
+  rm -rf "$t" "$S/vb-$id"
+}
+jobs_running=0
+if [ -f "$V/benign/areas.json" ]; then
+  for area in $(jq -r --arg p "$prop" 'to_entries[] | select(.value | index($p)) | .key' "$V/benign/areas.json"); do
+    for pt in "$V"/benign/$area/patch*.diff; do
+      [ -f "$pt" ] || continue
+      run_benign "$pt" &
+      jobs_running=$((jobs_running+1))
+      if [ $jobs_running -ge 4 ]; then wait -n; jobs_running=$((jobs_running-1)); fi
+    done
+  done
+  wait
+fi
+alarms=$(jq -r 'select(.outcome=="ALARM") | .patch' "$bres" | sort | paste -sd, -)
+nsil=$(jq -r 'select(.outcome=="silent") | .patch' "$bres" | wc -l)
+nbskip=$(jq -r 'select(.outcome=="skipped") | .patch' "$bres" | wc -l)
+echo "  thorough: self-test on behaviour-preserving refactorings: $nsil silent, $nbskip skipped${alarms:+, ALARMS: $alarms}"
+
 # ---- 3. merge into the evidence file -----------------------------------------
 ev="$V/evidence/$prop.json"
 if [ -f "$ev" ]; then
-  jq --arg s386 "$sum386" --slurpfile st <(jq -s . "$results") \
-    '.coverage.thorough = {goarch_386: $s386, selftest_seeded_changes: $st[0]}' "$ev" > "$S/ev.json" && cp "$S/ev.json" "$ev"
+  jq --arg s386 "$sum386" --slurpfile st <(jq -s . "$results") --slurpfile bn <(jq -s . "$bres") \
+    '.coverage.thorough = {goarch_386: $s386, selftest_seeded_changes: $st[0], selftest_behaviour_preserving_refactorings: $bn[0]}' "$ev" > "$S/ev.json" && cp "$S/ev.json" "$ev"
+fi
+if [ -n "$alarms" ]; then
+  echo "UNDECIDED $prop: the checker raises an alarm on behaviour-preserving refactoring(s) it is recorded to accept: $alarms (checker regression, not a violation of the property)"
+  exit 2
 fi
 if [ -n "$missed" ]; then
   echo "UNDECIDED $prop: the checker no longer reports seeded change(s) it is recorded to catch: $missed (checker regression, not a violation of the property)"
